@@ -18,6 +18,9 @@ type C20Case struct {
 	Hidden []bool   `json:"hidden"`
 	HasArg bool     `json:"has_arg"`
 	Word   string   `json:"word"`
+	// LateHide: the commands are declared visible, one diagnostic is produced,
+	// then the Hidden field of the commands is set (it is a public field)
+	LateHide bool `json:"late_hide,omitempty"`
 }
 
 var _ = Register("C20", func() interface{} { return new(C20Case) }, func(c interface{}) string { return c20Oracle(c.(*C20Case)) })
@@ -73,6 +76,7 @@ func genC20(t *rapid.T) *C20Case {
 		c.Names = append(c.Names, nm)
 		c.Hidden = append(c.Hidden, rapid.IntRange(0, 4).Draw(t, "hidden") == 0)
 	}
+	c.LateHide = rapid.IntRange(0, 2).Draw(t, "lateHide") == 0
 	switch rapid.IntRange(0, 9).Draw(t, "wordkind") {
 	case 0:
 		c.HasArg = false
@@ -155,9 +159,23 @@ func c20Oracle(c *C20Case) string {
 	if c.HasArg {
 		args = []string{c.Word}
 	}
-	b := Build(c20Decl(c))
+	decl := c20Decl(c)
+	if c.LateHide {
+		for i := range decl.Root.Cmds {
+			decl.Root.Cmds[i].Hidden = false
+		}
+	}
+	b := Build(decl)
 	if b.Err != nil {
 		return "setup error: " + b.Err.Error()
+	}
+	if c.LateHide {
+		Safely(func() { b.P.ParseArgs([]string{"\x00warmup"}) })
+		for i := range decl.Root.Cmds {
+			b.Cmds[decl.Root.Cmds[i].ID].Hidden = c.Hidden[i]
+		}
+		b.P.Active = nil
+		st.Label("hidden marks set after a first diagnostic")
 	}
 	var err error
 	if pm := Safely(func() { _, err = b.P.ParseArgs(args) }); pm != "" {
